@@ -314,6 +314,9 @@ func (e *env) serve(g *vsched.Group) func() {
 				if _, err := io.ReadFull(c, q); err != nil {
 					break
 				}
+				if len(q) < 12 {
+					break // not a DNS message: a real server drops the connection
+				}
 				e.tcpQ++
 				id := binary.BigEndian.Uint16(q)
 				bh, ttl := sc.t4, sc.ttl4
